@@ -438,6 +438,21 @@ fn plan_via_write_plan(p: &Plan) -> String {
                 if line.contains(" de=ok") {
                     line.push_str(&format!(" load={load}"));
                 }
+                // … and once more OVER an earlier, longer document at the same path (a pending plan that was never
+                // applied): the file must hold exactly the new document.  Reported only when it does not.
+                let mut big = p.clone();
+                big.search.push_str(&"x".repeat(4096));
+                if renamify_core::write_plan(&big, &path).is_ok() {
+                    match renamify_core::write_plan(p, &path).map(|()| std::fs::read_to_string(&path)) {
+                        Ok(Ok(again)) if again == text => {},
+                        Ok(Ok(again)) => line.push_str(&format!(
+                            " ow=differs:{}+{}",
+                            u8::from(again.starts_with(&text)),
+                            again.len().saturating_sub(text.len())
+                        )),
+                        _ => line.push_str(" ow=err"),
+                    }
+                }
                 line
             },
             Err(_) => "notjson".to_string(),
